@@ -207,7 +207,16 @@ def evaluate(res, prop, w, with_model=True):
     if with_model:
         drv = build_ocaml(res, 'derive', 'Derive')
         if drv:
-            rc, model = run_lines([drv, w['casefile']], timeout=3000)
+            # the model's observations are cached beside the implementation's (key: the driver's own hash): six properties share one workload
+            try: dh = open(os.path.join(os.path.dirname(drv), '.hash')).read().strip()
+            except OSError: dh = 'nohash'
+            mfile = os.path.join(os.path.dirname(w['casefile']), f'model_{dh}.txt')
+            with lock('derive_model_' + sha(mfile)):
+                if os.path.exists(mfile):
+                    rc, model = 0, open(mfile).read().splitlines()
+                else:
+                    rc, model = run_lines([drv, w['casefile']], timeout=3000)
+                    if rc == 0: open(mfile, 'w').write('\n'.join(model) + '\n')
             if rc != 0:
                 res.add_broken('correspondence', 'derive model driver run', ' '.join(model[-2:])[:300])
             tags = TAGS[prop]
